@@ -164,7 +164,40 @@ def _time_check(cls, days, secs, micro, data):
     return []
 
 
+def _accessor_job(kind):
+    def job():
+        from bromelia.avps import SupportedFeaturesAVP, HostIpAddressAVP, EventTimestampAVP, FeatureListAVP, OriginStateIdAVP
+        import datetime as _dt
+        out = []
+        if kind == "bits":
+            for w, i in ((0x80000001, 0), (0x00000000, 31), (0x7fffffff, 17)):
+                a = OriginStateIdAVP(w.to_bytes(4, "big"))
+                r = [a.is_bit_set(i)]
+                try:
+                    (a.unset_bit if r[0] else a.set_bit)(i)
+                except BaseException as e:
+                    r.append(type(e).__name__)
+                r += [a.data.hex(), a.is_bit_set(i)]
+                out.append(r)
+        else:
+            for lit in ("10.9.8.7", "2001:db8::1", "255.255.255.255", "::ffff:1.2.3.4"):
+                a = HostIpAddressAVP(lit)
+                out.append([a.data.hex(), a.is_ipv4(), a.is_ipv6(), a.get_ip_address()])
+            t = EventTimestampAVP(_dt.datetime(2036, 2, 7, 6, 28, 15))
+            out.append(t.data.hex())
+        return out
+    return job
+
+
+def purity(rep):
+    from engine import concur
+    pairs = [("bit accessors in one thread, address / time accessors in the other", _accessor_job("bits"), _accessor_job("addr")),
+             ("bit accessors in both threads", _accessor_job("bits"), _accessor_job("bits"))]
+    return concur.purity_stage(rep, "the typed accessors", pairs[:1 if rep.tier == "quick" else 2], ("/bromelia/types.py",), kmax=600, stride=3 if rep.tier == "quick" else 1)
+
+
 def run(rep):
+    purity(rep)
     descs = dictx.descriptors()
     u32 = [d for d in descs if d.type == "Unsigned32Type"]
     addr = [d for d in descs if d.type == "AddressType"]
@@ -286,6 +319,10 @@ def run(rep):
 
 
 def replay(rep, path):
+    if json.load(open(path))["replay"].get("kind") == "purity":
+        purity(rep)
+        rep.sample(json.load(open(path))["replay"])
+        return rep.finish()
     r = json.load(open(path))["replay"]
     byname = dictx.by_name()
     cls = byname[r["cls"]].cls
